@@ -212,7 +212,18 @@ static Reg r_table_run("table.run", [](const std::vector<std::string> &a) -> std
   while (std::getline(is, op, ',')) {
     if (op.empty()) continue;
     o += " ";
-    if (op[0] == 'i') {
+    if (op[0] == 'n') {
+      // AutoProbing::Insert of a key that is not in the table, the value written through the returned iterator (the idiom of
+      // the tools after FindOrInsert); the answer is what a fresh Find then reports for the key
+      size_t c = op.find(':', 2);
+      TEntry e;
+      e.key = strtoull(op.substr(2, c - 2).c_str(), NULL, 10);
+      e.value = 0;
+      TTable::MutableIterator it = t.Insert(e);
+      it->value = strtoull(op.substr(c + 1).c_str(), NULL, 10);
+      TTable::ConstIterator f;
+      o += t.Find(e.key, f) ? "n:" + std::to_string(f->value) : std::string("n:LOST");
+    } else if (op[0] == 'i') {
       size_t c = op.find(':', 2);
       TEntry e;
       e.key = strtoull(op.substr(2, c - 2).c_str(), NULL, 10);
